@@ -156,8 +156,53 @@ def one(shape):
     return probs
 
 
+def figures_case(n_workers):
+    '''a report whose results have plots: every referenced figure exists after write(), sequential and parallel modes'''
+    import numpy as np
+    from valjean.eponine.dataset import Dataset
+    from valjean.gavroche.stat_tests.student import TestStudent
+    from valjean.javert.rst import Rst
+    from valjean.javert.representation import Representation, FullRepresenter
+    from valjean.javert.test_report import TestReport
+    from collections import OrderedDict
+    res = []
+    for k in range(2):
+        bins = OrderedDict([('e', np.arange(4, dtype=float))])
+        d1 = Dataset(np.array([1.0, 2.0, 3.0]) + k, np.array([0.1, 0.1, 0.1]), bins=bins, name=f'ref{k}')
+        d2 = Dataset(np.array([1.1, 2.5, 3.0]) + k, np.array([0.1, 0.1, 0.1]), bins=bins, name=f'other{k}')
+        res.append(TestStudent(d1, d2, name=f'student-{k}').evaluate())
+    report = TestReport(title='Root', content=[TestReport(title='plots', content=res)])
+    base = tempfile.mkdtemp(prefix='c20f_', dir='/var/tmp')
+    target = os.path.join(base, 'report')
+    probs = []
+    try:
+        rst = Rst(Representation(FullRepresenter()), n_workers=n_workers)
+        rst.format_report(report=report, author='me', version='1').write(target)
+        refs = []
+        for dp, dn, fn in os.walk(target):
+            for f in fn:
+                if f.endswith('.rst'):
+                    refs += re.findall(r'\.\. image:: /figures/(\S+)', open(os.path.join(dp, f)).read())
+        if not refs:
+            probs.append('no figure referenced by a report whose results have plots')
+        for r in sorted(set(refs)):
+            p = os.path.join(target, 'figures', r)
+            if not os.path.exists(p) or os.path.getsize(p) == 0:
+                probs.append(f'the referenced figure {r} does not exist after write() (n_workers={n_workers})')
+    except Exception as e:      # noqa
+        probs.append(f'raised {e!r}')
+    finally:
+        shutil.rmtree(base, ignore_errors=True)
+    return probs
+
+
 def sweep(tier, seed, known=()):
     fails, n = [], 0
+    for nw in (None, 2):
+        n += 1
+        probs = figures_case(nw)
+        if probs:
+            fails.append({'input': {'figures': True, 'n_workers': nw}, 'observed': probs[:3], 'expected': 'every referenced figure exists'})
     for shape in shapes(tier):
         n += 1
         probs = one(shape)
@@ -165,7 +210,7 @@ def sweep(tier, seed, known=()):
             fails.append({'input': {'report': _show(shape)}, 'observed': probs[:3], 'expected': 'C20 oracle'})
     return {'name': 'written-report-native', 'evaluations': n, 'distinct': n, 'failures': fails, 'exhaustive': True,
             'bound': f'report trees of depth <= 3 over titles {TITLES if tier != "quick" else "a, b, index, conf, empty, ., a/b"} (one and two children, nested, repeated, '
-                     'empty sections), one result per marked section; files inspected after FormattedRst.write',
+                     'empty sections), one result per marked section; files inspected after FormattedRst.write; one report with plots written sequentially and with 2 worker processes',
             'samples': [_show(('Root', 0, [('a', 1, []), ('index', 1, [])]))]}
 
 
@@ -178,5 +223,8 @@ def _unshow(d):
 
 
 def replay(inp):
+    if inp.get('figures'):
+        probs = figures_case(inp.get('n_workers'))
+        return {'reproduced': bool(probs), 'observed': probs}
     probs = one(_unshow(inp['report']))
     return {'reproduced': bool(probs), 'observed': probs}
